@@ -344,6 +344,30 @@ impl Prop for Notified {
                 let m = t.draw(4);
                 let once_ops = (0..m).map(|_| t.draw(3) as u32).collect();
                 (ops, once_ops, "systematic".into())
+            } else if t.draw(16) == 0 {
+                // rhythm: a short unit of operations repeated many times (a subscriber that is
+                // ready at every single poll for hundreds of polls, one that always lags by k, ...),
+                // then nothing: regular patterns that random sequences never sustain
+                let unit_len = 1 + t.draw(4);
+                let unit: Vec<Op> = (0..unit_len)
+                    .map(|_| match t.draw(6) {
+                        0 | 1 => Op::Set,
+                        2 | 3 => Op::Poll(0),
+                        4 => Op::Poll(1),
+                        _ => Op::Set,
+                    })
+                    .collect();
+                let reps = [3usize, 17, 64, 127, 128, 129, 130, 255, 256, 257, 300, 520, 1030][t.draw(13)];
+                let mut ops = vec![Op::Subscribe];
+                if t.draw(2) == 1 {
+                    ops.push(Op::Subscribe);
+                }
+                for _ in 0..reps {
+                    ops.extend(unit.iter().copied());
+                }
+                let m = t.draw(5);
+                let once_ops = (0..m).map(|_| t.draw(3) as u32).collect();
+                (ops, once_ops, format!("rhythm unit={unit:?} x {reps}"))
             } else {
                 // scale swarm: one sequence in sixteen is long (hundreds of sets, dozens of
                 // subscribers with arbitrary indices), the rest stay within 6 sets / 3 subscribers
@@ -479,7 +503,7 @@ impl Prop for Notified {
     }
 
     fn rule(&self) -> String {
-        "Each execution = one sequence of up to 24 operations with at most 6 sets and 3 subscribers (one in sixteen: 50..600 operations, hundreds of sets, dozens of subscribers) (set of a fresh increasing value, subscribe, poll subscriber j, drop subscriber, clone / drop a state clone, drop all states) applied to the real zlink_tokio::notified::State and, identically, to zlink_smol::notified::State, followed by draining every live subscriber; plus one one-shot sequence over {poll, notify, drop notifier}. Systematic part: every sequence over {set, subscribe, poll0, poll1, poll2} up to length 7 (quick) / 9 (thorough) and every one-shot sequence up to length 3. Model per subscriber: yielded values are values that were set, strictly increasing, each marked continues=true; no end-of-stream while a state exists; after draining, the last item is the last value set (if any was set after subscribing); a pending subscriber is woken by the next set. Non-trivial = a subscriber lagged (skipped at least one value) or returned Pending; distinct = distinct (operation sequence, observed items) hash.".into()
+        "Each execution = one sequence of up to 24 operations with at most 6 sets and 3 subscribers (one in sixteen: 50..600 operations, hundreds of sets, dozens of subscribers; one in sixteen: a unit of 1..4 operations repeated 3..1030 times, e.g. set-poll-set-poll…, then silence) (set of a fresh increasing value, subscribe, poll subscriber j, drop subscriber, clone / drop a state clone, drop all states) applied to the real zlink_tokio::notified::State and, identically, to zlink_smol::notified::State, followed by draining every live subscriber; plus one one-shot sequence over {poll, notify, drop notifier}. Systematic part: every sequence over {set, subscribe, poll0, poll1, poll2} up to length 7 (quick) / 9 (thorough) and every one-shot sequence up to length 3. Model per subscriber: yielded values are values that were set, strictly increasing, each marked continues=true; no end-of-stream while a state exists; after draining, the last item is the last value set (if any was set after subscribing); a pending subscriber is woken by the next set. Non-trivial = a subscriber lagged (skipped at least one value) or returned Pending; distinct = distinct (operation sequence, observed items) hash.".into()
     }
 
     fn components(&self) -> Value {
